@@ -295,11 +295,11 @@ func (x *Exec) havocLike(st *State, old Value, t types.Type, name string) Value 
 
 // frameEnv builds a spec environment from the current Go variable bindings.
 func (x *Exec) frameEnv(fr *Frame) *Env {
-	env := &Env{vars: map[string]Value{}, frame: fr}
+	env := &Env{vars: map[string]Value{}, frame: fr, frameFirst: true}
 	if n := len(fr.preSt); n > 0 {
 		env.preSt = fr.preSt[n-1]
 		pf := fr.preFr[n-1]
-		env.preEnv = &Env{vars: map[string]Value{}, frame: pf}
+		env.preEnv = &Env{vars: map[string]Value{}, frame: pf, frameFirst: true}
 		if pf.fn.Pkg != nil {
 			env.preEnv.pkg = pf.fn.Pkg
 		} else if pf.fn.Parent() != nil {
